@@ -17,11 +17,9 @@ independent writer of that format.
 "Exactly as written": the text after the tag, unchanged (blanks included).  For `<2>` the written
 text is the comma-joined isoschizomer list and the entry holds that list: `expectedMap` demands
 `r.isos`, in particular NO isoschizomers for an empty `<2>` line (nil and the empty list are
-identified, as for the suppliers of an empty `<7>`, which come back as nil / `null`).
-rebase.Parse returns the one-element list `[""]` there (Go's `strings.Split("", ",")`): known
-finding C16-empty-isoschizomers.  `readMap` is `expectedMap` with that quirk — exactly what the code
-returns (`parse_listing_read`); `wfRec` forbids an empty isoschizomer NAME, so a written list
-never holds `""`.
+identified, as for the suppliers of an empty `<7>`; the export writes `null` for both).  Until fix
+a3fb5a0 rebase.Parse returned the one-element list `[""]` there (`strings.Split("", ",")`).
+`wfRec` forbids an empty isoschizomer NAME, so a written list never holds `""`.
 -/
 namespace PolyVerif.Spec.RebaseListing
 open PolyVerif PolyVerif.LineText PolyVerif.Rebase
@@ -100,17 +98,6 @@ def enzymeOf (sups : List Supplier) (r : Rec) : Enzyme :=
 last record's content, as a Go map store does) -/
 def expectedMap (sups : List Supplier) (recs : List Rec) : List (Str × Enzyme) :=
   recs.foldl (fun m r => mapInsert m r.name (enzymeOf sups r)) []
-
-/-- what rebase.Parse makes of a record: as `enzymeOf`, but an EMPTY `<2>` line is read as the
-one-element list `[""]` (known finding C16-empty-isoschizomers) -/
-def enzymeRead (sups : List Supplier) (r : Rec) : Enzyme :=
-  { enzymeOf sups r with isoschizomers := if r.isos.isEmpty then [[]] else r.isos }
-
-def readMap (sups : List Supplier) (recs : List Rec) : List (Str × Enzyme) :=
-  recs.foldl (fun m r => mapInsert m r.name (enzymeRead sups r)) []
-
-/-- some record has no isoschizomers (an empty `<2>` line) -/
-def emptyIsos (recs : List Rec) : Bool := recs.any (·.isos.isEmpty)
 
 /-! ### well-formedness (decidable) -/
 
